@@ -644,7 +644,7 @@ CORPUS.append({"id": "B-unparse-roundtrip-every-module", "kind": "benign", "prop
 CORPUS.append({"id": "B-shift-all-line-numbers", "kind": "benign", "props": ALL_PROPS, "rule": None, "edits": [], "transform": "shift-lines"})
 CORPUS.append({"id": "B-rename-every-local-suffix", "kind": "benign", "props": ALL_PROPS, "rule": None, "edits": [], "transform": "rename-locals"})
 CORPUS.append({"id": "B-rename-every-local-opaque", "kind": "benign", "props": ALL_PROPS, "rule": None, "edits": [], "transform": "rename-opaque"})
-for _k in ("swap-if-else", "flip-compare", "sort-kwargs", "temp-return", "drop-else-after-jump", "expand-augassign", "split-and"):
+for _k in ("swap-if-else", "flip-compare", "sort-kwargs", "temp-return", "drop-else-after-jump", "expand-augassign", "split-and", "add-logging", "annotate-assign"):
     CORPUS.append({"id": f"B-refactor-{_k}", "kind": "benign", "props": ALL_PROPS, "rule": None, "edits": [], "transform": _k})
 
 
@@ -778,3 +778,16 @@ mutant("M-F11-repeat-positivity-guard-removed", ["C17"], "DIVZERO-1", (MANIPF, "
 mutant("M126-repeat-guard-only-warns", ["C17"], "DIVZERO-1", (MANIPF, "    if repeats < 1:\n        raise ValueError(\"repeat only supports positive values for `repeats`\")\n", "    if repeats < 1:\n        import warnings\n\n        warnings.warn(\"repeat with non-positive `repeats`\")\n"))
 benign("B-repeat-guard-le-zero", ["C17"], (MANIPF, "    if repeats < 1:\n        raise ValueError(\"repeat only supports positive values for `repeats`\")\n", "    if repeats <= 0:\n        raise ValueError(f\"repeat needs a positive `repeats`, got {repeats}\")\n"))
 benign("B-repeat-guard-merged", ["C17"], (MANIPF, "    if not isinstance(repeats, int):\n        raise ValueError(\"repeat only supports integral values for `repeats`\")\n    if repeats < 1:\n        raise ValueError(\"repeat only supports positive values for `repeats`\")\n", "    if not isinstance(repeats, int) or repeats < 1:\n        raise ValueError(\"repeat only supports positive integral values for `repeats`\")\n"))
+# seeded round 2 (C03-4): per-block data collected across the block loop
+mutant(
+    "M127-partial-reduce-collects-then-reduces-once",
+    ["C03"],
+    "NEST-LAZY-1",
+    (OPS, "    result = None\n    for array in arrays:\n        if initial_func is not None:", "    result = None\n    parts = []\n    for array in arrays:\n        if initial_func is not None:"),
+    (OPS, "        else:\n            # only need to concatenate along first axis\n            result = nxp.concat([result, reduced_chunk], axis=axis[0])\n            result = reduce_func(result, axis=axis, keepdims=True)\n\n    return result", "        else:\n            parts.append(reduced_chunk)\n    if parts:\n        result = reduce_func(nxp.concat([result] + parts, axis=axis[0]), axis=axis, keepdims=True)\n\n    return result"),
+)
+benign(
+    "B-partial-reduce-counts-blocks",
+    ["C03"],
+    (OPS, "    result = None\n    for array in arrays:\n        if initial_func is not None:", "    result = None\n    seen_shapes = []\n    for array in arrays:\n        seen_shapes.append(1)\n        if initial_func is not None:"),
+)
